@@ -3,6 +3,7 @@
 from __future__ import annotations
 
 import itertools
+import keyword
 import string
 import types
 from collections.abc import Callable, Iterator
@@ -116,9 +117,17 @@ class PythonParserGenerator(IndentPrintMixin, NodeWalker):
             params = ', '.join(param_repr(p) for p in rule.params)
         if rule.kwparams:
             assert isinstance(rule.kwparams, dict)
-            kwparams = ', '.join(
-                f'{k}={param_repr(v)}' for k, v in rule.kwparams.items()
-            )
+            # NOTE: a name like `if` or `class` cannot be written as a keyword argument
+            plain = {
+                k: v
+                for k, v in rule.kwparams.items()
+                if k.isidentifier() and not keyword.iskeyword(k)
+            }
+            other = {k: v for k, v in rule.kwparams.items() if k not in plain}
+            kwparams = ', '.join(f'{k}={param_repr(v)}' for k, v in plain.items())
+            if other:
+                packed = ', '.join(f'{k!r}: {param_repr(v)}' for k, v in other.items())
+                kwparams = ', '.join(filter(None, [kwparams, f'**{{{packed}}}']))
 
         if params and kwparams:
             params = params + ', ' + kwparams
